@@ -17,6 +17,8 @@ Mirrors `code_hash.py` (`HashRule` family, `_visit_dependency`, `collect_transit
   key, and every other symbol (an alias) is digested together with the function it refers to (fix F21 —
   before it, re-binding an alias between two functions of the closure did not change the version; found by
   the partition stream of the correspondence check, which showed this model to be finer than the code).
+  (Fix F24: a plain function reached through a symbol other than its own name gets a rule of its own, keyed with that
+  symbol; in the model a name *is* the object, so two functions are two names whatever their `__qualname__`.)
 * `Def.plain inPkg tok refs`: a plain function, `inPkg` = its module's `__package__` is the root's.
 * `Def.var (some v)`: a module variable of a supported type with serialised value `v`;
   `Def.var none`: a variable of an unsupported type (no rule matches; untracked).
